@@ -101,7 +101,7 @@ def parseMechTok (w : String) : Option (Nat × MParam) :=
       let mech ← parseHexNat? m
       let p := ":".intercalate rest
       match p.splitOn "(" with
-      | [raw] => do let b ← parseHex raw; pure (mech, { present := true, len := b.length })
+      | [raw] => do let b ← parseHex raw; pure (mech, { present := true, len := b.length, raw := [b] })
       | [kind, args] =>
         let as := ((args.dropEnd 1).toString.splitOn ",")
         let hexLen (x : String) : Nat := ((parseHex x).getD []).length
@@ -112,7 +112,7 @@ def parseMechTok (w : String) : Option (Nat × MParam) :=
           let cb := ((parseHex (as.getD 1 ".")).getD []) ++ List.replicate 16 (0 : UInt8)
           let v := (cb.take 16).foldl (fun acc b => acc * 256 + b.toNat) 0
           pure (mech, { present := true, kind := kind, nums := [num (as.getD 0 "0"), v] })
-        else pure (mech, { present := true, kind := kind, nums := as.map num })
+        else pure (mech, { present := true, kind := kind, nums := as.map num, raw := as.map fun x => (parseHex x).getD [] })
       | _ => none
   | _ => none
 
@@ -163,6 +163,32 @@ def parseOpPair (op res : List String) : Option Parsed :=
       let (mech, _) ← parseMechTok m
       let r ← parseNat? rv
       pure ⟨.op (.digestInit (← parseNat? h) mech r), { rv := r }⟩
+  | [opn, _, m, _, _, c], rv :: h :: wk :: k :: out =>
+      if opn == "wrap" then do
+        let r ← parseNat? rv
+        let (mech, p) ← parseMechTok m
+        let cap ← parseCap c
+        let o ← parseOut r out
+        pure ⟨.op (.wrap (← parseNat? h) mech p (← parseNat? wk) (← parseNat? k) cap o), outResp o cap⟩
+      else none
+  | "unwrap" :: _ :: m :: _ :: _ :: tpl, [rv, h, uk, hk, blob] => do
+      let r ← parseNat? rv
+      let (mech, p) ← parseMechTok m
+      -- the wrapped bytes as the harness resolved them (a reference to an earlier wrap output, possibly damaged) are echoed in the result
+      let b ← if blob == "-" then some none else if blob == "." then some (some []) else (parseHex blob).map some
+      let hkv ← parseNat? hk
+      pure ⟨.op (.unwrap (← parseNat? h) mech p (← parseNat? uk) b (← parseTpl tpl) r), { rv := r, nums := if r == 0 then [hkv] else [] }⟩
+  | "derive" :: _ :: m :: _ :: tpl, [rv, h, bk, hk, other] => do
+      let r ← parseNat? rv
+      let (mech0, p0) ← parseMechTok m
+      let hkv ← parseNat? hk
+      pure ⟨.op (.derive (← parseNat? h) mech0 { p0 with nums := [← parseNat? other] } (← parseNat? bk) (← parseTpl tpl) r), { rv := r, nums := if r == 0 then [hkv] else [] }⟩
+  | "derive" :: _ :: m :: _ :: tpl, [rv, h, bk, hk] => do
+      let r ← parseNat? rv
+      let (mech0, p0) ← parseMechTok m
+      -- `obj(@k)`: the other key of CKM_CONCATENATE_BASE_AND_KEY is named by reference in the op line; its handle value is not in the result: not followed
+      let hkv ← parseNat? hk
+      pure ⟨.op (.derive (← parseNat? h) mech0 p0 (← parseNat? bk) (← parseTpl tpl) r), { rv := r, nums := if r == 0 then [hkv] else [] }⟩
   | ["digkey", _, _], [rv, h, k] => do
       let r ← parseNat? rv
       pure ⟨.op (.digestKey (← parseNat? h) (← parseNat? k) r), { rv := r }⟩
